@@ -19,7 +19,13 @@ VERIF = Path(__file__).resolve().parents[2]
 REPO = Path(os.environ.get("CIJ_REPO", "/repo"))
 SPEC = VERIF / "spec"
 EVIDENCE = VERIF / "evidence"
+EVIDENCE_EXT = VERIF / "evidence_ext"
 REPLAYS = VERIF / "replays"
+if REPO.resolve() != Path("/repo"):
+    # a scratch tree (a seeded change or a refactor under study, tools/regress_seeded.sh, tools/try_benign.sh): what the run writes must
+    # not end up among the evidence of /repo
+    _OUT = Path(tempfile.gettempdir()) / "cijverif.scratch_out" / REPO.name
+    EVIDENCE, EVIDENCE_EXT, REPLAYS = _OUT / "evidence", _OUT / "evidence_ext", _OUT / "replays"
 KNOWN = VERIF / "known_findings.json"
 
 LEVELS = {"exploration", "fault_enumeration", "model_checking", "proof",
@@ -153,8 +159,8 @@ class Ctx:
             "assumptions": self.assumptions, "wall_s": round(wall, 3), "violations": self.violations,
         }
         # supplementary models (ids X..) are not listed properties: their evidence is kept apart from /verif/evidence
-        evdir = EVIDENCE if not self.pid.startswith("X") else VERIF / "evidence_ext"
-        evdir.mkdir(exist_ok=True)
+        evdir = EVIDENCE if not self.pid.startswith("X") else EVIDENCE_EXT
+        evdir.mkdir(parents=True, exist_ok=True)
         (evdir / f"{self.pid}.json").write_text(json.dumps(ev, indent=1, sort_keys=True) + "\n")
         status = "VIOLATED" if self.violations else "held"
         print(f"[{self.pid}] {status}: evaluations={cov['evaluations']} distinct={cov['distinct_nontrivial']} "
